@@ -274,6 +274,7 @@ def hx_env():
     e["ASAN_OPTIONS"] = "detect_leaks=0:abort_on_error=1:handle_abort=1:allocator_may_return_null=1"
     e["UBSAN_OPTIONS"] = "print_stacktrace=1:halt_on_error=1"
     e["QT_LOGGING_RULES"] = "*.debug=false"
+    e["LC_ALL"] = "C.UTF-8"        # file names are UTF-8 on disk (QFile::encodeName follows the locale)
     e.setdefault("HX_CASE_TIMEOUT", "20")
     return e
 
@@ -375,7 +376,7 @@ def run_both(prop, cases):
 # ----------------------------------------------------------------------------- step 5: shrink
 
 # top-level positions that hold oracle tables (tabulated answers of Qt): never shrunk
-PROTECT = {"sock": {2}, "srv": {2}, "srvm": {2}, "fs": {0, 1, 4}, "bauth": {3}, "slot": {2}, "proxy": {5}}
+PROTECT = {"sock": {2}, "srv": {2}, "srvm": {2}, "fs": {0, 1, 4}, "bauth": {3}, "bauthm": {2}, "slot": {2}, "proxy": {5}}
 
 
 def candidates(v, protect=frozenset()):
